@@ -273,6 +273,10 @@ func (t *SimpleUtf8Tokenizer) Next() bool {
 }
 
 func (t *SimpleUtf8Tokenizer) updateHash(count int) {
+	// a value may end inside a multi-byte character (truncated or invalid UTF-8): the token is what is left of it
+	if count > t.end-t.start {
+		count = t.end - t.start
+	}
 	for i := 0; i < count; i++ {
 		t.hashValue ^= bits.RotateLeft64(t.hashValue, 11) ^ (uint64((t.input)[t.start+i]) * Prime_64)
 	}
